@@ -201,7 +201,7 @@ func (p predT) gallina() string {
 type opT struct {
 	Kind string `json:"op"` // NewParented Fork NewTypeSet NewDep Define Load LoadEntry GetEntry Has Discover AddType AddTypes
 	L    int    `json:"l"`
-	A    []int  `json:"a,omitempty"` // AddTypes: the types handed to px.AddTypes (item < 100: declaration addDecls[item], parsed afresh; else the value item-100 of the table)
+	A    []int  `json:"a,omitempty"` // AddTypes: the types handed to px.AddTypes (item < 100: declaration addDecls[item], parsed afresh; else the value item-100 of the table); Declare: the declared types (values item-100 of the table)
 	T    int    `json:"t,omitempty"`
 	N    tname  `json:"n,omitempty"`
 	V    int    `json:"v,omitempty"`
@@ -247,6 +247,12 @@ func (o opT) String() string {
 		return fmt.Sprintf("%s(l%d,%s,v%d)", o.Kind, o.L, o.N, o.V)
 	case "Discover":
 		return fmt.Sprintf("Discover(l%d,%s%s)", o.L, o.P.Kind, o.P.S)
+	case "Declare":
+		ns := make([]string, len(o.A))
+		for i, a := range o.A {
+			ns[i] = fmt.Sprintf("v%d", a-100)
+		}
+		return fmt.Sprintf("Declare(l%d,[%s])", o.L, strings.Join(ns, ","))
 	case "AddTypes":
 		ns := make([]string, len(o.A))
 		for i, a := range o.A {
@@ -310,6 +316,17 @@ func setupUniverse(c px.Context) {
 	addVal(10, types.NewIntegerType(3, 4), 21, true)
 	addVal(11, types.NewTypeAliasType(`MyAlias`, nil, types.NewIntegerType(1, 2)), 22, true)
 	addVal(12, types.NewTypeAliasType(`Foo::Car`, nil, types.NewIntegerType(1, 3)), 23, true)
+	// resolved alias types for the declaration route (px.RegisterResolvableType): an equal and a different value under the
+	// names of 11 and 12, and the names in another letter case (one entry; TypeAliasType.Equals compares the name too, so
+	// these are different values).  The classes are checked against px.Equality at start-up (checkAliasClasses).
+	addVal(13, types.NewTypeAliasType(`MyAlias`, nil, types.NewIntegerType(1, 2)), 22, true)
+	addVal(14, types.NewTypeAliasType(`MyAlias`, nil, types.DefaultStringType()), 24, true)
+	addVal(15, types.NewTypeAliasType(`MYALIAS`, nil, types.NewIntegerType(1, 2)), 25, true)
+	addVal(16, types.NewTypeAliasType(`Foo::Car`, nil, types.NewIntegerType(1, 3)), 23, true)
+	addVal(17, types.NewTypeAliasType(`foo::car`, nil, types.DefaultStringType()), 26, true)
+	addVal(18, types.NewTypeAliasType(`Late`, nil, types.NewIntegerType(1, 2)), 27, true)
+	addVal(19, types.NewTypeAliasType(`Late`, nil, types.NewIntegerType(1, 2)), 27, true)
+	addVal(20, types.NewTypeAliasType(`late`, nil, types.DefaultStringType()), 28, true)
 
 	// the static loader (read only in all histories): keys and value identities
 	all := func(px.TypedName) bool { return true }
@@ -476,6 +493,9 @@ func (w *world) apply(o opT) (res string) {
 	}
 	if o.Kind == "AddTypes" {
 		return w.applyAddTypes(o)
+	}
+	if o.Kind == "Declare" {
+		return w.applyDeclare(o)
 	}
 	if o.L < 0 || o.L >= len(w.loaders) {
 		return "RBadLoader"
